@@ -158,7 +158,7 @@ def _main_child(args):
     if unknown:
         shrink_jobs = []
         classes = sorted(unknown.keys())
-        for vc in classes[:cfg.get('max_reported_classes', 6)]:
+        for vc in classes[:cfg.get('max_reported_classes', 10)]:
             seed, plan, v = min(unknown[vc], key=lambda t: engine.plan_size(t[1]))
             shrink_jobs.append(('shrink', (plan, vc, cfg.get('shrink_budget', 200))))
         sres = run_jobs(engine, shrink_jobs, workers=args.workers, job_cap_s=cfg.get('shrink_cap_s', 600.0))
@@ -177,8 +177,8 @@ def _main_child(args):
             print('VIOLATION property=%s replay=%s' % (vrep['property'], path))
             print('  clause=%s class=%s seed=%d fresh-process-replay=%s' % (vrep.get('clause'), vrep.get('class'), seed, ok))
             print('  %s' % vrep.get('message', '').replace('\n', '\n  '), flush=True)
-        if len(classes) > cfg.get('max_reported_classes', 6):
-            print('  (+%d further violation classes not minimised)' % (len(classes) - cfg.get('max_reported_classes', 6)))
+        if len(classes) > cfg.get('max_reported_classes', 10):
+            print('  (+%d further violation classes not minimised)' % (len(classes) - cfg.get('max_reported_classes', 10)))
 
     n_unknown = sum(len(v) for v in unknown.values())
     wall = time.monotonic() - t_start
